@@ -135,7 +135,7 @@ PROPS = {
         level="proof", engines=[eng("xtalk", 4000, 100000, timeout=900), eng("residue", 1, 5, timeout=900), eng("corr", 800, 10000), eng("oneway", 500, 5000)], labels=["C18"],
         text="Theorems (Props/C18.lean, invariants of Chan): once a non-streaming request has been answered no router is kept; a router that exists belongs to an unanswered request; one router per request, "
              "bounded by the registrations; deferred deletion removes a streaming router; stream-down leaves no router; a request answered with an error keeps no router, streaming or not; the replacement of a stream answers exactly the requests "
-             "written to it (replaceCancel_answers_written); over ConnMgr: no request written to a dead stream is forgotten (lost_is_cancelled; the pinned code leaks: pinned_leak_reachable). Tie: deletion guards and the facts of the stream replacement regenerated; digests of the router functions, sendMsg and the "
+             "written to it (replaceCancel_answers_written); over ConnMgr: no request written to a dead stream is forgotten (lost_is_cancelled; the pinned code leaks: pinned_leak_reachable). End to end (Net, Props/NetFail.lean): on every node an answered request keeps no router and every router belongs to a request some call issued to that node (net_no_router_after_answer, net_no_router_after_error, net_router_is_issued). Tie: deletion guards and the facts of the stream replacement regenerated; digests of the router functions, sendMsg and the "
              "call goroutines; engines: xtalk (after quiescence zero routers on every node and library goroutines back to the baseline), residue (every way a call can end, sequentially, with failing sends and "
              "contexts that end before the send), corr / oneway (zero routers after every case).",
         note="Trusted: as C05. Goroutine exit is observed at runtime (goroutine profile filtered to library frames), not proved.",
@@ -174,7 +174,7 @@ PROPS = {
         text="Theorems (Props/C07.lean): the reported error list has exactly one entry per consumed error arrival, in order; an error arrival never changes the reply set; failures interleaved "
              "before a quorum reply do not prevent success (tolerates_failures); an Incomplete outcome lists exactly the failures of a history in which all targeted nodes answered; status round trip "
              "(C13); over Chan: a request, streaming or not, is answered with at most one error and nothing after it (at_most_one_error, error_is_last: the failing node is reported once; the pinned code reported a node "
-             "twice: pinned_streaming_router_reports_twice); over ConnMgr: requests written to a stream that dies are answered (lost_is_cancelled). Tie: error guards and loop parameters regenerated; digests of sender/receiver/cancelPendingMsgs/connect/routeResponse and the error formatters; engine qc checks code + message per failing node in the error text; engine crashrace stops a server at a random instant while quorum calls are being issued to it concurrently "
+             "twice: pinned_streaming_router_reports_twice); over ConnMgr: requests written to a stream that dies are answered (lost_is_cancelled). End to end (composite system Net, Props/NetFail.lean): on every node of a call a request is answered with at most one error and nothing after it (net_at_most_one_error, net_error_is_last), so a failing node is reported at most once per call whatever fails. Tie: error guards and loop parameters regenerated; digests of sender/receiver/cancelPendingMsgs/connect/routeResponse and the error formatters; engine qc checks code + message per failing node in the error text; engine crashrace stops a server at a random instant while quorum calls are being issued to it concurrently "
              "(requests registered, queued, being written or awaiting replies): every failing node contributes exactly one error, errors + replies add up.",
         note="Trusted: as C01. The liveness half ('a waiting call is completed when the connection breaks') is the ConnMgr statement lost_is_cancelled (a safety statement: a cancellation is on its way; that it arrives needs the scheduler assumption) and is exercised by the crash arrivals of engines qc / crashrace / corr.",
     ),
